@@ -77,6 +77,12 @@ SATSolver::new:     `UnitPropagate::new(cnf)` ↦ `upNew cnf true (defaultFuel c
 UnitPropagate::new: the local `watch_list_pos/neg` vectors ↦ one `wl : WL` (`Vec::new()` ↦ `WL.empty`, pushing empty inner
                     vectors is a no-op because an absent position reads as `[]`), `cur.decide(m, l)` ↦
                     `decideK (loop cnf true fuel) wl m l`; Rust `None` ↦ `some none`, fuel exhausted ↦ `none`
+more idioms:        `.windows(n)` ↦ `TieAux.windows n`, `.zip(b)` ↦ `List.zip`, `.take(n)`/`.skip(n)` ↦ `take`/`drop` (on the prime
+                    iterator: `primesAfter n 1` / `primesFrom n 1`), `.rev()`, `.first()` ↦ `head?`, `.last()` ↦ `getLast?`,
+                    `.position(p)` ↦ `List.findIdx? p`, `.find(p)` ↦ `List.find? p`, `.sum()`, `v.extend(x)` ↦ `v ++ x` (`++ x.toList`
+                    for an `Option`), `binary_search(&x).is_ok()` ↦ `TieAux.binarySearchOk` (a literal bisection, NOT membership),
+                    `Option::{map, map_or, and_then, unwrap_or, is_some, is_none}`, `usize::from(b)` ↦ `if b then 1 else 0`,
+                    `drop(e);` ↦ `e;`, `let w = if c { WL[i].swap_remove(k) } else { WL'[j].swap_remove(k) }` ↦ value + `wl.upd`
 elaboration guard:  after translation the whole generated file is elaborated once with `lake env lean`; a definition
                     that does not elaborate falls back to its alias (status UNTRANSLATED "does not elaborate");
                     set GEN_CNFUP_NOCHECK=1 to skip
@@ -1047,6 +1053,10 @@ class Fn:
                 return "(match %s with\n| none => %s\n| some %s => (\n%s))" % (self.ex(s, allow_panic_call=True), self.do_panic(), v, k(v))
             if s[0] == "unary" and s[1] == "!" :
                 return self.hoist(s[2], lambda v: k("!" + par(v)))
+            if s[0] == "index" and path_name(s[1]) in self.spec.get("stacks", ()):
+                base, kk = self.stack_from_end(s)
+                el = self.fresh("el")
+                return "(match %s[%d]? with\n| none => %s\n| some %s => (\n%s))" % (par(self.var(base)), kk - 1, self.do_panic(), el, k(el))
             if s[0] == "mcall" and s[2] == "update_hash_and_sat_set" and path_name(s[1]) and self.kinds.get(path_name(s[1])) == "solver" \
                     and len(s[3]) == 1:
                 x = self.var(path_name(s[1]))
@@ -1147,6 +1157,21 @@ class Fn:
                 n = self.ex(si[1][3][0])
                 val, adv = "%s.getD %s default" % (it, n), "%s.drop (%s + 1)" % (it, n)
             return "let %s := %s;\nlet %s := %s;\n%s" % (self.bind_pat(pat), val, it, adv, rest())
+        if init[0] == "if" and init[3] is not None and init[3][0] == "block" and pat[0] == "pvar":
+            brs = [init[2], init[3]]
+            if all(b[0] == "block" and not b[1] and b[2] is not None and strip(b[2])[0] == "mcall" and strip(b[2])[2] == "swap_remove"
+                   and strip(strip(b[2])[1])[0] == "index" and self.watch_list(strip(strip(b[2])[1])) is not None for b in brs):
+                c = self.ex(init[1])
+                vals, upds = [], []
+                for b in brs:
+                    mc = strip(b[2])
+                    pol, idx = self.watch_list(strip(mc[1]))
+                    k_ = par(self.ex(mc[3][0]))
+                    cur = "wl.get %s %s" % (pol, par(idx))
+                    vals.append("(%s).getD %s 0" % (cur, k_))
+                    upds.append("wl.upd %s %s (swapRemove (%s) %s)" % (pol, par(idx), cur, k_))
+                return ("let %s := if %s then %s else %s;\nlet wl := if %s then %s else %s;\n%s"
+                        % (self.bind_pat(pat), c, vals[0], vals[1], c, upds[0], upds[1], rest()))
         if init[0] in ("if", "match", "iflet", "block") and self.has_jump(init):
             raise Untranslatable("`let` whose initialiser contains a jump / panic")
         return self.hoist(init, lambda v: self.let_emit(pat, v, rest))
@@ -1177,6 +1202,8 @@ class Fn:
             raise Untranslatable("macro %s! as a statement" % e[1])
         if e[0] == "assign":
             return self.assign(e, rest)
+        if e[0] == "call" and e[1] == ("path", ["drop"]) and len(e[2]) == 1:
+            return self.stmt(e[2][0], rest)
         if e[0] == "mcall":
             return self.mut_call(e, rest)
         if e[0] == "if":
@@ -1293,6 +1320,10 @@ class Fn:
                 return "PModel.set %s %s %s" % (par(x), par(a[0]), par(a[1]))
             raise Untranslatable("PartialModel::" + m)
         # Vec
+        if m == "extend" and len(args) == 1:
+            if self.kind_of(args[0]) == "option":
+                return "%s ++ %s.toList" % (x, par(a[0]))
+            return "%s ++ %s" % (x, par(a[0]))
         if m == "push":
             return "%s ++ [%s]" % (x, a[0])
         if m == "pop" and not args:
@@ -1547,6 +1578,10 @@ class Fn:
             return self.kind_of(s[2][2])
         if s[0] == "mcall" and s[2] == "top_state":
             return "satstate"
+        if s[0] == "mcall" and s[2] in ("first", "last", "position", "find", "get", "max", "min") and self.kind_of(s[1]) not in ("pm", "stack"):
+            return "option"
+        if s[0] == "mcall" and s[2] == "take" and self.kind_of(s[1]) == "primes":
+            return None
         if s[0] == "mcall" and s[2] in ("filter", "map", "chain", "difference", "assignment_iter", "skip", "take", "enumerate", "rev"):
             return "iter"
         if s[0] == "struct" and s[1][-1] == "Literal" and self.flavor == "word":
@@ -1789,6 +1824,8 @@ class Fn:
             return "[]"
         if full == "primal::Primes::all" and not args:
             return "1"
+        if full in ("usize::from", "u64::from", "u128::from") and len(args) == 1:
+            return "(if %s then 1 else 0)" % self.ex(args[0])
         table = self.spec.get("calls", {})
         if full in table:
             t = table[full]
@@ -1910,6 +1947,34 @@ class Fn:
             return "List.foldl (%s) %s %s" % (self.closure(c), par(self.ex(args[0])), par(self.ex(recv)))
         if m == "get" and len(args) == 1 and rk is None:
             return "%s[%s]?" % (par(self.ex(recv)), self.ex(args[0]))
+        if m == "windows" and len(args) == 1:
+            return "TieAux.windows %s %s" % (par(self.ex(args[0])), par(self.ex(recv)))
+        if m == "take" and len(args) == 1 and rk == "primes":
+            return ("primesAfter %s 1" if self.flavor == "unitprop" else "primesFrom %s 1") % par(self.ex(args[0]))
+        if m in ("take", "skip") and len(args) == 1:
+            return "%s.%s %s" % (par(self.ex(recv)), {"take": "take", "skip": "drop"}[m], par(self.ex(args[0])))
+        if m == "rev" and not args:
+            return "%s.reverse" % par(self.ex(recv))
+        if m == "zip" and len(args) == 1:
+            return "List.zip %s %s" % (par(self.ex(recv)), par(self.ex(args[0])))
+        if m == "first" and not args:
+            return "%s.head?" % par(self.ex(recv))
+        if m == "last" and not args and rk != "stack":
+            return "%s.getLast?" % par(self.ex(recv))
+        if m == "position" and len(args) == 1:
+            return "List.findIdx? (%s) %s" % (self.closure(args[0]), par(self.ex(recv)))
+        if m == "find" and len(args) == 1:
+            return "List.find? (%s) %s" % (self.closure(args[0]), par(self.ex(recv)))
+        if m == "is_ok" and not args and r[0] == "mcall" and r[2] == "binary_search" and len(r[3]) == 1:
+            return "TieAux.binarySearchOk %s %s" % (par(self.ex(r[1])), par(self.ex(r[3][0])))
+        if m == "sum" and not args:
+            return "%s.foldl (· + ·) 0" % par(self.ex(recv))
+        if m == "unwrap_or" and len(args) == 1:
+            return "%s.getD %s" % (par(self.ex(recv)), par(self.ex(args[0])))
+        if m == "map_or" and len(args) == 2 and rk == "option":
+            return "(match %s with | some x_ => (%s) x_ | none => %s)" % (self.ex(recv), self.closure(args[1]), par(self.ex(args[0])))
+        if m == "and_then" and len(args) == 1 and rk == "option":
+            return "%s.bind (%s)" % (par(self.ex(recv)), self.closure(args[0]))
         raise Untranslatable("method .%s (receiver kind %s)" % (m, rk))
 
 
@@ -2013,9 +2078,9 @@ FUNCS = [
     ("PartialModel::difference", "model.rs", r"impl PartialModel\b", "difference", "pmDifference", "(m other : PartialModel)", "List Lit", "CnfUtil.PartialModel.difference", spec(PM, result=VAL)),
     ("Cnf::new", "cnf.rs", r"impl Cnf\b", "new", "cnfNew", "(clauses : List (List Lit))", "CnfM", "CnfUtil.cnfNew", spec(CNF, result=VAL)),
     ("Cnf::num_vars", "cnf.rs", r"impl Cnf\b", "num_vars", "cnfNumVars", "(c : CnfM)", "Nat", "CnfUtil.numVars", spec(CNF, result=VAL)),
-    ("Cnf::eval", "cnf.rs", r"impl Cnf\b", "eval", "cnfEval", "(c : CnfM) (assignment : List Bool)", "Option Bool", "CnfUtil.eval", spec(CNF, result=VAL, panic=True, panic_calls=(), forbid=("all", "any", "map", "filter"))),
-    ("Cnf::is_sat_partial", "cnf.rs", r"impl Cnf\b", "is_sat_partial", "cnfIsSatPartial", "(c : CnfM) (partial_assignment : PartialModel)", "Bool", "CnfUtil.isSatPartial", spec(CNF, result=VAL, forbid=("all", "any", "map", "filter"))),
-    ("Cnf::condition", "cnf.rs", r"impl Cnf\b", "condition", "cnfCondition", "(c : CnfM) (lit : Lit)", "CnfM", "CnfUtil.condition", spec(CNF, result=VAL, forbid=("all", "any", "map", "filter"))),
+    ("Cnf::eval", "cnf.rs", r"impl Cnf\b", "eval", "cnfEval", "(c : CnfM) (assignment : List Bool)", "Option Bool", "CnfUtil.eval", spec(CNF, result=VAL, panic=True, panic_calls=())),
+    ("Cnf::is_sat_partial", "cnf.rs", r"impl Cnf\b", "is_sat_partial", "cnfIsSatPartial", "(c : CnfM) (partial_assignment : PartialModel)", "Bool", "CnfUtil.isSatPartial", spec(CNF, result=VAL)),
+    ("Cnf::condition", "cnf.rs", r"impl Cnf\b", "condition", "cnfCondition", "(c : CnfM) (lit : Lit)", "CnfM", "CnfUtil.condition", spec(CNF, result=VAL)),
     ("Cnf::var_in_cnf", "cnf.rs", r"impl Cnf\b", "var_in_cnf", "cnfVarInCnf", "(c : CnfM) (v : Nat)", "Bool", "CnfUtil.varInCnf", spec(CNF, result=VAL, kinds={"v": "label"})),
     ("Cnf::wmc", "cnf.rs", r"impl Cnf\b", "wmc", "cnfWmc", "{α : Type} (S : SROps α) (c : CnfM) (w : Weights α)", "Option α", "@CnfUtil.wmc", spec(CNF, result=VAL, panic=True, defaults={"weight_vec": "(S.zero, S.zero)"})),
     ("AssignmentIter::next", "cnf.rs", r"impl Iterator for AssignmentIter\b", "next", "iterNext", "(cur : Option (List Bool)) (num_vars : Nat)", "Option (List Bool) × Option (List Bool)", "TieAux.iterNext", ITER),
@@ -2031,7 +2096,7 @@ DISABLED = {
 }
 
 UPD = dict(flavor="unitprop", self="self", fields={"cnf": "cnf"}, result=VAL,
-           methods={("pm", "get"): "%s %s", (None, "clauses"): "%s"},
+           methods={("pm", "get"): "%s %s", (None, "clauses"): "%s", ("pm", "lit_implied"): "litTrue %s %s", ("pm", "is_set"): "(%s %s).isSome"},
            consts={"UnitPropResult::UNSAT": "some (wl, none)"}, calls={"UnitPropResult::PartialSAT": "some (wl, some %s)"},
            up_decide="decideK (upLoop cnf fuel) wl %s %s", fuel_out="none")
 
